@@ -619,8 +619,12 @@ class MetaEnv:
         self.model = model
         self.opaque_meta = set(opaque_meta)    # names of essentials classes kept as atoms
         self.opaque_fn = opaque_fn             # (class name, args, kwargs) -> Atom
-        self.named = named_classes(model)
-        self.tokens = token_classes(model)
+        cache = model.__dict__.setdefault("_metaenv_cache", {})
+        if "named" not in cache:
+            cache["named"] = named_classes(model)
+            cache["tokens"] = token_classes(model)
+        self.named = cache["named"]
+        self.tokens = cache["tokens"]
         self.ex_mod = model.module("pregex.core.exceptions")
 
     def find_core_class(self, name):
